@@ -241,6 +241,25 @@ CHECKS = {
         "pinned by tests) and K04 (field objects rebuilt) are listed in known_findings.json.",
         "DESIGN.md 4/C16",
     ),
+    "C17": (
+        "model_checking",
+        "explicit-state search over operation histories: every sequence of up to D of 21 public "
+        "operations from three seed ACLs is replayed on a fresh real Acl next to a reference model "
+        "stepped in lock-step; invariants after every step; differential history-independence oracle "
+        "(history object vs object rebuilt from data()) for every operation at every non-final state",
+        "All histories of length <=2 (quick: 1386) / <=3 over 21 operations plus <=4 over 10 "
+        "structural operations (thorough: 59169) from 3 seeds (IOS with multi-operand eq, names, "
+        "shadowed entries, headings, a group with members; NX-OS grouped and numbered with a group; "
+        "IOS with non-contiguous wildcard, numeric protocol, a duplicate, neq). After every step: "
+        "text parses back to itself, the independent reader's rule list equals the model's, block "
+        "names/sequence numbers/sizes and group members equal the model's, no operation is refused; "
+        "at non-final states every operation applied to the history object and to Acl(**data()) "
+        "reaches the same fingerprint.",
+        "Trusted: the reference model in vf/checks/c17.py (grouping, split incl. the pinned neq "
+        "behaviour, member-wise shadow relation), readers. Beyond the bound nothing is claimed "
+        "(no random exploration: sampling is a different technique family).",
+        "DESIGN.md 4/C17",
+    ),
     "C18": (
         "exploration",
         "complete enumeration of request lists up to a length x side x templates x ports-per-line "
